@@ -9,6 +9,16 @@ import (
 
 func init() {
 	props["C04"] = func(w *World, tr *Trace) { runModelHistory(w, tr, histOpts{prop: "C04"}) }
+	props["C10"] = func(w *World, tr *Trace) {
+		runModelHistory(w, tr, histOpts{prop: "C10", restarts: true, kinds: c10Kinds, tweak: func(p *GenProfile) {
+			p.NIdx = 1 + p.NOps%2
+			p.NIDs = 4
+			p.GraphOnly = true
+			p.Retention = true
+			p.AdvSet = []int64{0, 1, 1, 2, 1000, int64(time.Second), int64(time.Second), int64(3 * time.Second), int64(time.Minute), int64(61 * time.Minute)}
+			p.NOps = 10 + p.NOps
+		}})
+	}
 	props["C05"] = func(w *World, tr *Trace) { runModelHistory(w, tr, histOpts{prop: "C05", restarts: true, rejects: true}) }
 }
 
@@ -19,6 +29,8 @@ type histOpts struct {
 	kinds    []string
 	tweak    func(p *GenProfile)
 }
+
+var c10Kinds = []string{"create", "link", "link", "link", "link", "link", "link", "unlink", "unlink", "unlink", "graphvacuum", "graphvacuum", "advance", "advance", "advance", "snapshot", "rewrite", "add", "del", "updcfg"}
 
 var c04Kinds = []string{"kvset", "kvset", "kvdel", "create", "create", "drop", "add", "add", "add", "add", "addbatch", "addbatch", "import", "commit", "del", "del", "del", "setmeta", "setmeta", "reinforce", "evolve", "link", "link", "unlink", "updcfg", "updautolinks", "snapshot", "rewrite", "compress", "maint", "maint", "advance", "advance", "flush"}
 
@@ -180,6 +192,15 @@ func runModelHistory(w *World, tr *Trace, ho histOpts) {
 			}
 			err, out := w.exec(op)
 			settle()
+			if op.K == "advance" {
+				// the engine's hourly graph-vacuum ticker (started at Open) fires in the background
+				for t := w.openedAt + int64(time.Hour); t <= w.Now(); t += int64(time.Hour) {
+					if t > now {
+						w.Probe("background_graph_vacuum")
+						m.Apply(Op{K: "graphvacuum"}, t)
+					}
+				}
+			}
 			if oc.Reject && err == nil {
 				w.Fail("rejects", "accepted_"+op.K, fmt.Sprintf("op %d %s must be rejected (%s) but returned no error", i, op.String(), oc.Why), i)
 				break
